@@ -13,6 +13,8 @@ import Fir.Model.Resample
 import Fir.Props.C10
 import Fir.Proofs.FixedLemmas
 import Fir.Proofs.ImageLemmas
+import Fir.Proofs.TwoPassLemmas
+import Fir.Proofs.IdealFilterLemmas
 
 namespace Fir.C18
 open Fir
@@ -119,6 +121,53 @@ theorem vertPass_monotone_u16 (src src' : Img) (dstW dstH offset : Nat) (c : Coe
     (x y ch : Nat) (hx : x < dstW) (hy : y < dstH) (hc : ch < src.n) :
     (vertPass .u16 src dstW dstH offset c).get x y ch ≤ (vertPass .u16 src' dstW dstH offset c).get x y ch :=
   Fir.Proofs.vertPass_monotone_u16 src src' dstW dstH offset c hn hp hk hle hacc x y ch hx hy hc
+
+/-! ### both passes of `do_convolution` composed (8-bit order) -/
+
+open Fir.Proofs in
+theorem twoPass_monotone_u8 (src src' : Img) (dstW dstH tempW xFirst : Nat) (vc hc : Coeffs) (hn : src.n = src'.n)
+    (hpV : (qOf .u8 vc).precision < 32) (hpH : (qOf .u8 hc).precision < 32)
+    (hkV : ∀ y, y < dstH → ∀ k ∈ (chunkAt .u8 vc y).2.toList, 0 ≤ k)
+    (hkH : ∀ x, x < dstW → ∀ k ∈ (chunkAt .u8 hc x).2.toList, 0 ≤ k)
+    (hle : ∀ x y ch j, src.get (xFirst + x) ((chunkAt .u8 vc y).1 + j) ch ≤ src'.get (xFirst + x) ((chunkAt .u8 vc y).1 + j) ch)
+    (haccV : ∀ x y ch, x < tempW → y < dstH → ch < src.n →
+      AccOK8 (chunkAt .u8 vc y).2.toList (vWindow .u8 src xFirst vc x y ch) (qOf .u8 vc).precision ∧
+      AccOK8 (chunkAt .u8 vc y).2.toList (vWindow .u8 src' xFirst vc x y ch) (qOf .u8 vc).precision)
+    (hfit : ∀ x, x < dstW → (chunkAt .u8 hc x).1 + (chunkAt .u8 hc x).2.size ≤ tempW)
+    (haccH : ∀ x y ch, x < dstW → y < dstH → ch < src.n →
+      AccOK8 (chunkAt .u8 hc x).2.toList (hWindow .u8 (vertPass .u8 src tempW dstH xFirst vc) 0 hc x y ch) (qOf .u8 hc).precision ∧
+      AccOK8 (chunkAt .u8 hc x).2.toList (hWindow .u8 (vertPass .u8 src' tempW dstH xFirst vc) 0 hc x y ch) (qOf .u8 hc).precision)
+    (x y ch : Nat) (hx : x < dstW) (hy : y < dstH) (hc' : ch < src.n) :
+    (horizPass .u8 (vertPass .u8 src tempW dstH xFirst vc) dstW dstH 0 hc).get x y ch
+      ≤ (horizPass .u8 (vertPass .u8 src' tempW dstH xFirst vc) dstW dstH 0 hc).get x y ch :=
+  Fir.Proofs.twoPass_monotone_u8 src src' dstW dstH tempW xFirst vc hc hn hpV hpH hkV hkH hle haccV hfit haccH x y ch hx hy hc'
+
+/-! ### the ideal statement (`Fir.Spec.IdealFilter`): box and triangle windows are convex combinations -/
+
+open Fir.Spec in
+theorem qBox_nonneg (x : ℚ) : 0 ≤ qBox x :=
+  Fir.Proofs.qBox_nonneg x
+
+open Fir.Spec in
+theorem qBilinear_nonneg (x : ℚ) : 0 ≤ qBilinear x :=
+  Fir.Proofs.qBilinear_nonneg x
+
+open Fir.Spec in
+theorem idealWeights_nonneg_box (inSize : Nat) (in0 in1 : ℚ) (outSize : Nat) (adaptive : Bool) (o : Nat) :
+    ∀ w ∈ (idealWeights inSize in0 in1 outSize ⟨qBox, 1 / 2⟩ adaptive o).2, 0 ≤ w :=
+  Fir.Proofs.idealWeights_nonneg_box inSize in0 in1 outSize adaptive o
+
+open Fir.Spec in
+theorem idealWeights_nonneg_bilinear (inSize : Nat) (in0 in1 : ℚ) (outSize : Nat) (adaptive : Bool) (o : Nat) :
+    ∀ w ∈ (idealWeights inSize in0 in1 outSize ⟨qBilinear, 1⟩ adaptive o).2, 0 ≤ w :=
+  Fir.Proofs.idealWeights_nonneg_bilinear inSize in0 in1 outSize adaptive o
+
+open Fir.Spec in
+/-- a convex combination stays inside the range of its inputs (the ideal statement behind C18) -/
+theorem convex_combination_range (ws xs : List ℚ) (lo hi : ℚ) (hlen : xs.length = ws.length)
+    (hw : ∀ w ∈ ws, 0 ≤ w) (hsum : ws.sum = 1) (hx : ∀ x ∈ xs, lo ≤ x ∧ x ≤ hi) :
+    lo ≤ (List.zipWith (· * ·) ws xs).sum ∧ (List.zipWith (· * ·) ws xs).sum ≤ hi :=
+  Fir.Proofs.convex_combination_range ws xs lo hi hlen hw hsum hx
 
 /-! ### non-vacuity -/
 example : passInt .u8 [8192, 8192] [10, 20] 14 ≤ passInt .u8 [8192, 8192] [10, 21] 14 := by decide
